@@ -124,9 +124,9 @@ def make_synthetic_ids() -> Any:
         from ml_pipeline_engine.node.node import generate_node_id, get_node_id
 
         def h(sym: Any) -> Tuple[str, Dict[str, Any]]:
-            sw1, sw2 = sym.str("switch_name1", 3, ALPHA), sym.str("switch_name2", 3, ALPHA)
-            t, n = sym.str("type", 3, ALPHA), sym.str("name", 3, ALPHA)
-            idx1, idx2 = sym.int("idx1", 0, 12), sym.int("idx2", 0, 12)
+            sw1, sw2 = sym.str("switch_name1", 2, ALPHA), sym.str("switch_name2", 2, ALPHA)
+            t, n = sym.str("type", 2, ALPHA), sym.str("name", 2, ALPHA)
+            idx1, idx2 = sym.choice("idx1", 3) * 5, sym.choice("idx2", 3) * 5  # 0, 5, 10
             sym.assume(_wf(sw1) and _wf(sw2) and _wf(t) and _wf(n))
             sym.assume(t != "switch" and t != "input_one_of")  # reserved synthetic prefixes
             with untraced():
@@ -166,4 +166,5 @@ register(Job("C15", "naming_get_node_id", make_get_node_id(), tier="quick", budg
                   "symbolic": ["type1", "name1", "type2", "name2"], **NDOC}))
 register(Job("C15", "naming_synthetic_ids", make_synthetic_ids(), tier="quick", budget_s=300, goals=("checked",),
              doc={"template": "unit: generate_node_id for switch / one-of heads vs a real node id",
-                  "symbolic": ["two switch names", "a real (type,name)", "two one-of positions"], **NDOC}))
+                  "symbolic": ["two switch names (len <= 2)", "a real (type,name) (len <= 2 each)",
+                               "two one-of positions in {0,5,10}"], **NDOC}))
